@@ -39,6 +39,8 @@ class PairCheck(Check):
                 '(wire message sequence A, wire message sequence P) pairs')
 
     def nontrivial(self, trace, meta):
+        if 'agent' in meta:
+            return repr(meta)
         wires = {'A': [], 'P': []}
         started = False
         for ev in trace:
@@ -52,6 +54,8 @@ class PairCheck(Check):
         return repr((wires['A'], wires['P']))
 
     def sample(self, trace, meta):
+        if 'agent' in meta:
+            return {'meta': meta, 'events': len(trace)}
         return {'meta': meta, 'events': len(trace), 'summary': tp.summarize(trace)[:1500]}
 
     def executions(self, tier, seed):
@@ -114,6 +118,19 @@ class C18(PairCheck):
     devs = ()
     term_p = 0.5
     close_p = 0.15
+
+    def executions(self, tier, seed):
+        traces, metas = PairCheck.executions(self, tier, seed)
+        # the UDPCL and BTP-U agents: every signal they emit against its declared signature
+        from harness.drivers import udpcl_cases, btpu_cases
+        utr, ume = udpcl_cases.executions('quick', seed)
+        btr, bme = btpu_cases.executions('quick', seed)
+        keep_u = [i for (i, t) in enumerate(utr) if any(ev['a'] == 'Sig' for ev in t)][:80]
+        keep_b = [i for (i, t) in enumerate(btr) if any(ev['a'] == 'Sig' for ev in t)][:60]
+        xt = [utr[i] for i in keep_u] + [btr[i] for i in keep_b]
+        xm = [dict(ume[i], agent='udpcl') for i in keep_u] + [dict(bme[i], agent='btpu') for i in keep_b]
+        self.extra_coverage['udpcl_btpu_signal_traces'] = len(xt)
+        return [('TcpclTrace', traces, metas), ('XferObs', xt, xm)]
 
 
 REGISTRY = {'C01': C01, 'C04': C04, 'C09': C09, 'C18': C18}
